@@ -203,6 +203,11 @@ class Checker:
         ctx.dist("hypothesis wfStages4 (first four passes) " + ("holds" if self.last_wf[4] else "FAILS") + " on the real tree")
         ctx.dist("hypothesis wfStages6 (Tree.WF of C15_tweaks_full) " + ("holds" if self.last_wf[5] else "FAILS") + " on the real tree")
         ctx.dist("stage6 = tweak (staged tweaks vs one-shot specification) " + ("holds" if self.last_wf[6] else "FAILS") + " on the real tree")
+        if not self.last_wf[5] and not (fe.quirk_features(tree) - {"async-def", "bytes-repr-double-quoted"}):
+            # Tree.WF fails although the program has none of the adversarial literals: a lead worth looking at
+            ctx.dist("LEAD: wfStages6 fails on a non-adversarial tree")
+            if len(ctx.notes) < 5:
+                ctx.notes.append("lead: wfStages6 fails on a non-adversarial tree: " + src[:300])
         if self.last_wf[5] and not self.last_wf[6] and len(ctx.notes) < 5:
             ctx.notes.append("stage6 differs from tweak on a well-formed tree: " + src[:200])
             ctx.broken.append("corr:stage6-vs-tweak")
@@ -474,16 +479,14 @@ def run(ctx):
         "or one sequence of flattenings, or one token-level input of a line-level pass; distinct non-trivial = "
         "distinct flat AST texts of at least 10 lines / distinct orders with repetitions / inputs changed by the pass"
     )
-    ctx.cov["proved"] = [
+    ctx.cov["proved"] = sorted(t.split(".")[-1] for t in ctx.cov.get("theorems", {}))
+    ctx.cov["proved_summary"] = [
         "C15_preorder_once (dump = pre-order enumeration; every node, list, scalar exactly once under its address and names)",
         "C15_path_code / C15_path_nesting (the `_pos` path is a prefix-free code; prefix ⇔ nesting)",
         "C15_hash (same `_hash` ⇔ same context-free repr within one flattening)",
-        "C15_stateless / C15_sequence (result independent of the factory state; any sequence of flattenings)",
-        "C15_flatten_eq (flatten_ast = post-processing of the pure dump)",
-        "C15_tweak_{kinds,alias,posonly,backport,neg,unquote}_partial (each of the six passes is a tree-level tweak, under "
-        "local clauses), C15_tweaks_full (the six composed: postProcess (dump t) = dump (stage6 t) under wfStages6), "
-        "C15_flatten_tweaked (the same for what flatten_ast returns)",
-        "C15_async_counterexample, C15_bytes_counterexample, C15_kind_in_string_counterexample (witnesses of the recorded findings)",
+        "C15_stateless / C15_sequence / C15_reset_needed (the reset step makes the result independent of the factory state)",
+        "C15_tweak_*_partial, C15_tweaks_full, C15_flatten_tweaked (the six passes are tree-level tweaks; composed; on flatten_ast)",
+        "C15_escape_at_dump, C15_escapePos_no_pos, C15_escaped_value_not_poslike (escaped terminal values)",
     ]
     ctx.cov["exercised_only"] = [
         "that the exported repr of an expression is equal for two expressions iff they are the same expression up to "
